@@ -445,6 +445,10 @@ def directed_c02(chk):
         ('Floats', [('f', 'prophy.r32'), ('d', 'prophy.r64'), ('n', 'prophy.u32'), ('a', 'prophy.array(prophy.r32, bound="n")')]),
         ('Empty', []),
         ('GreedyEmpty', [('a', 'prophy.u32'), ('g', 'prophy.array(Empty)')]),
+        ('BoundEmpty', [('n', 'prophy.u32'), ('m', 'prophy.array(Empty, bound="n")'), ('t', 'prophy.u16')]),
+        ('ShiftedEmpty', [('n', 'prophy.u8'), ('m', 'prophy.array(Empty, bound="n", shift=2)'), ('t', 'prophy.u16')]),
+        ('LimitedEmpty', [('n', 'prophy.u8'), ('m', 'prophy.array(Empty, bound="n", size=4)'), ('t', 'prophy.u16')]),
+        ('FixedEmpty', [('m', 'prophy.array(Empty, size=3)'), ('t', 'prophy.u16')]),
         ('ShiftBig', [('n', 'prophy.u32'), ('a', 'prophy.array(prophy.u8, bound="n", shift=65537)')]),
         ('ShiftTwo', [('n', 'prophy.u32'), ('a', 'prophy.array(prophy.u8, bound="n", shift=2)')]),
         ('ShiftBytes', [('n', 'prophy.u32'), ('b', 'prophy.bytes(bound="n", shift=65536)')]),
@@ -469,7 +473,7 @@ def directed_c02(chk):
         diffs = {}
         for f in fields:
             a, b = getattr(x, f), getattr(y, f)
-            a, b = (list(a), list(b)) if hasattr(a, '__iter__') and not isinstance(a, (str, bytes)) else (a, b)
+            a, b = (list(a), list(b)) if (hasattr(a, '__iter__') or hasattr(a, '__getitem__')) and not isinstance(a, (str, bytes)) else (a, b)
             if isinstance(a, list) and a and hasattr(a[0], 'encode') and not isinstance(a[0], (str, bytes)):
                 a, b = len(a), len(b)
             if a != b or type(a) is not type(b) and not isinstance(a, (int, float)):
@@ -499,6 +503,12 @@ def directed_c02(chk):
         roundtrip('shifted-counter', ns['ShiftBig'], lambda x: None, ['a'], e, lambda x, y, d: False)
         roundtrip('shifted-counter', ns['ShiftTwo'], lambda x: x.a.extend([7] * 65535), ['a'], e, lambda x, y, d: False)
         roundtrip('shifted-counter', ns['ShiftBytes'], lambda x: setattr(x, 'b', b'x'), ['b'], e, lambda x, y, d: False)
+        # counted arrays of elements without members: the count alone carries them (only the greedy form is finding D56)
+        for name in ('BoundEmpty', 'ShiftedEmpty', 'LimitedEmpty'):
+            for count in (0, 1, 3):
+                roundtrip('counted-empty-elements', ns[name], lambda x, count=count: (setattr(x, 't', 0x1234), [x.m.add() for _ in range(count)]), ['m', 't'], e,
+                          lambda x, y, d: False)
+        roundtrip('counted-empty-elements', ns['FixedEmpty'], lambda x: setattr(x, 't', 0x1234), ['m', 't'], e, lambda x, y, d: False)
         roundtrip('D56', ns['GreedyEmpty'], lambda x: (setattr(x, 'a', 7), x.g.add(), x.g.add()), ['a', 'g'], e,
                   lambda x, y, d: list(d) == ['g'] and len(y.g) == 0)
 
@@ -626,14 +636,45 @@ def directed_c06(chk):
         # a greedy array of zero-size elements: any non-empty rest must end in ProphyError, not in an endless loop (fixed by 6530972)
         outcome('greedy-empty', ns['GreedyEmpty'], b'\x00', e)
         outcome('greedy-empty', ns['PaddedGreedyEmpty'], ns['PaddedGreedyEmpty']().encode(e), e)
-        # counted arrays of zero-size elements: 16 counters of 65536 behind one counter of 16
-        big = (16).to_bytes(4, 'little' if e == '<' else 'big') + (65536).to_bytes(4, 'little' if e == '<' else 'big') * 16
+        # counted arrays of zero-size elements: 4 counters of 65536 behind one counter of 4 (more would only take longer)
+        big = (4).to_bytes(4, 'little' if e == '<' else 'big') + (65536).to_bytes(4, 'little' if e == '<' else 'big') * 4
         res, m, casej = outcome('D56', ns['CountedCounted'], big, e)
         if res[0] == 'ok':
             elements = sum(len(y.x) for y in m.y)
             if elements > 16 * len(big):
                 chk.property_violation(casej, {'what': 'an input of %d bytes decoded into %d elements: element counts are not bounded by the input' % (len(big), elements),
                                                'elements': elements, 'input_bytes': len(big)}, classify_c06)
+    # byte strings that are not `bytes` objects (D161): read as the bytes they hold, or refused with ProphyError
+    import array
+    hw = handwritten([('Plain', [('n', 'prophy.u32'), ('x', 'prophy.array(prophy.u16, bound="n")')]),
+                      ('WithBytes', [('n', 'prophy.u32'), ('x', 'prophy.array(prophy.u16, bound="n")'), ('b', 'prophy.bytes(size=4)')])])
+    plain = bytes.fromhex('02000000' '0100' '0200')
+    doubled = bytes(b for pair in zip(plain, plain) for b in pair)
+    for note, cls, make, valid in [
+        ('bytearray', 'Plain', lambda: bytearray(plain), True), ('memoryview', 'Plain', lambda: memoryview(plain), True),
+        ('strided memoryview', 'Plain', lambda: memoryview(doubled)[::2], True), ('reversed memoryview', 'Plain', lambda: memoryview(plain[::-1])[::-1], True),
+        ('memoryview of 2-byte items', 'Plain', lambda: memoryview(array.array('H', plain)), True),
+        ('memoryview of 4-byte items', 'Plain', lambda: memoryview(array.array('I', plain)), True),
+        ('array of bytes', 'Plain', lambda: array.array('B', plain), True),
+        ('text string', 'Plain', lambda: plain.decode('latin-1'), False), ('None', 'Plain', lambda: None, False), ('int', 'Plain', lambda: 7, False),
+        ('list of ints', 'Plain', lambda: list(plain), False),
+        ('bytearray, schema with a bytes field', 'WithBytes', lambda: bytearray(plain + b'abcd'), True),
+        ('memoryview, schema with a bytes field', 'WithBytes', lambda: memoryview(plain + b'abcd'), True),
+    ]:
+        casej = {'schema': 'hand-written descriptor', 'type': cls, 'data': note + ' holding ' + plain.hex(), 'endianness': '<', 'directed': 'not-bytes'}
+        chk.count((cls, 'not-bytes', note), True)
+        chk.bump('directed:not-bytes')
+        m = hw[cls]()
+        try:
+            m.decode(make(), '<')
+            if list(m.x) != [1, 2] or not valid:
+                chk.property_violation(casej, {'what': 'decode returned for %s with x = %r' % (note, list(m.x))})
+        except Exception as ex:  # noqa
+            name = py_impl.exc_class(ex)
+            if name != 'ProphyError':
+                chk.property_violation(casej, {'what': 'decode raised %s (only ProphyError is allowed)' % name, 'exc': name}, classify_c06)
+            elif valid:
+                chk.property_violation(casej, {'what': 'a valid encoding held by a %s is refused: %s' % (note, str(ex)[:100])})
     # nesting depth: struct S0 { u8 a; }; struct Sk { S(k-1) a; }; every message of every Sk is one byte long
     import prophy
     for depth in (100, 300, 500):
